@@ -183,6 +183,21 @@ func readStream(typ string, r *iohelp.ErrorReader) (uint64, *dateOut) {
 	panic("readStream: " + typ)
 }
 
+// chunkReader delivers at most n bytes per Read (n = 0: everything available).
+type chunkReader struct {
+	r io.Reader
+	n int
+}
+
+func (c *chunkReader) Read(p []byte) (int, error) {
+	if c.n > 0 && len(p) > c.n {
+		p = p[:c.n]
+	}
+	return c.r.Read(p)
+}
+
+var chunkCycle = []int{0, 1, 3, 7}
+
 type countingWriter struct {
 	buf    bytes.Buffer
 	writes int
@@ -208,7 +223,7 @@ func opRT(it item) any {
 	writes := 0
 	var errs []string
 	out, site := core.Guard(func() {
-		for _, p := range pats {
+		for pi, p := range pats {
 			buf := make([]byte, w)
 			writeBytes(it.Type, buf, p)
 			wb = append(wb, buf...)
@@ -226,7 +241,7 @@ func opRT(it item) any {
 			if d != nil {
 				dates = append(dates, *d)
 			}
-			er := iohelp.NewErrorReader(bytes.NewReader(exact(sb)))
+			er := iohelp.NewErrorReader(&chunkReader{bytes.NewReader(exact(sb)), chunkCycle[pi%4]})
 			v2, d2 := readStream(it.Type, er)
 			if er.Err != nil {
 				errs = append(errs, "reader err: "+er.Err.Error())
@@ -249,7 +264,7 @@ func opGUID(it item) any {
 	}
 	var res []one
 	out, site := core.Guard(func() {
-		for _, h := range it.Hex {
+		for gi, h := range it.Hex {
 			raw, _ := hex.DecodeString(h)
 			var g [16]byte
 			copy(g[:], raw)
@@ -259,7 +274,7 @@ func opGUID(it item) any {
 			ew := iohelp.NewErrorWriter(cw)
 			iohelp.WriteGUID(ew, g)
 			g1 := iohelp.ReadGUIDBytes(exact(buf))
-			er := iohelp.NewErrorReader(bytes.NewReader(exact(cw.buf.Bytes())))
+			er := iohelp.NewErrorReader(&chunkReader{bytes.NewReader(exact(cw.buf.Bytes())), chunkCycle[gi%4]})
 			g2 := iohelp.ReadGUID(er)
 			o := one{WB: hex.EncodeToString(buf), WS: hex.EncodeToString(cw.buf.Bytes()), RB: hex.EncodeToString(g1[:]), RS: hex.EncodeToString(g2[:])}
 			if er.Err != nil {
@@ -397,8 +412,14 @@ func opStr(it item) any {
 		case "mustshared":
 			s = iohelp.MustReadStringBytesSharedMemory(buf)
 			s = string(append([]byte(nil), s...))
-		case "stream":
-			er := iohelp.NewErrorReader(&failReader{data: buf, err: io.EOF})
+		case "stream", "stream1", "stream3":
+			var rd io.Reader = &failReader{data: buf, err: io.EOF}
+			if it.Variant == "stream1" {
+				rd = &chunkReader{rd, 1}
+			} else if it.Variant == "stream3" {
+				rd = &chunkReader{rd, 3}
+			}
+			er := iohelp.NewErrorReader(rd)
 			s = iohelp.ReadString(er)
 			err = er.Err
 		}
